@@ -80,6 +80,7 @@ CHECKS = {
             {"test": "TestC09", "quick": 12000, "thorough": 200000, "shards": 16, "quick_shards": 2},
             {"test": "TestC09OpenCells", "rapid": False, "quick": 0, "thorough": 0, "shards": 1},
             {"test": "TestC09Files", "quick": 300, "thorough": 1500, "shards": 16, "quick_shards": 2},
+            {"test": "TestC09Names", "quick": 1500, "thorough": 10000, "shards": 8, "quick_shards": 1},
         ],
         "assumptions": ["process code terminates and subroutines consume before recursing (by construction); zero divisors (K1) and branch-typed variables (K2) excluded by construction, mutants that hit them are counted by signature",
                         "runs above 200000 VM instructions are discarded and counted"],
